@@ -8,7 +8,8 @@
 (* Lists and maps live on a heap and are shared by reference.               *)
 (* Expression trees are records with a field k (node kind), exactly the     *)
 (* JSON the harness produces from the real parser's tree (astconv).         *)
-(* Eval threads a state record st = [sc, heap, pt, log, xt, pend, v2].      *)
+(* Eval threads a state record st = [sc, heap, pt, log, xt, pend, v2, wrap,  *)
+(* pre, c] (c: the running script's context [prog, name, mo, v2]).          *)
 EXTENDS Patterns
 
 (* ------------------------------- values --------------------------------- *)
@@ -420,24 +421,13 @@ FromDeep(d, st) ==
 Alloc(st, obj) == [st |-> [st EXCEPT !.heap = Append(@, obj)], l |-> Len(st.heap) + 1]
 
 \* a value used as an operand / element / condition: in v2 "no value" and multi-values are errors
-\* use("name") is specified as a statement of its own (the machine then runs the callee as a task).  A use call anywhere else
-\* - inside a condition, a loop clause, an operand, an element, an argument - is left unspecified: the result is the class
-\* "unspec-use-position" (only "no crash" is demanded of the implementation there).
-NoPend(r) == IF r.st.pend # "" THEN E([r.st EXCEPT !.pend = ""], "unspec-use-position") ELSE r
+\* use("name") written as a statement of its own is run by the statement level (PlRef: by recursion; PlMachine: as a task of its
+\* own, with its own frames and polls).  A use call in any other position - a condition, a loop clause, an operand, an element, an
+\* argument - runs the callee then and there, to completion, on the same point and heap with fresh variables, and yields "no
+\* value"; a callee's error becomes the expression's error, its chain (st.pre) followed by the use site and the sites of the calls
+\* in progress.  InlineFuel bounds the statements of such a callee (beyond it the model does not say: unspec-diverge).
+InlineFuel == 400
 DirectUse(s) == s.k = "call" /\ s.f = "use"
-\* A use call that is the first thing its statement evaluates - the value of add_key(k, use("n")), the source of v = use("n"),
-\* the only argument of probe(use("n")) - is specified too: the callee runs first, then the statement with "no value" in the
-\* call's place; a callee's error passes through every call that was in progress (add_key appends its own call site: wrap).
-NoLead == [is |-> FALSE, name |-> "", wrap |-> 0]
-LeadUse(s) ==
-  IF s.k = "call" /\ s.f = "add_key" /\ Len(s.as) = 2 /\ DirectUse(s.as[2]) /\ Len(s.as[2].as) = 1 /\ s.as[2].as[1].k = "str"
-    THEN [is |-> TRUE, name |-> s.as[2].as[1].name, wrap |-> 1]
-  ELSE IF s.k = "call" /\ s.f = "probe" /\ Len(s.as) = 1 /\ DirectUse(s.as[1]) /\ Len(s.as[1].as) = 1 /\ s.as[1].as[1].k = "str"
-    THEN [is |-> TRUE, name |-> s.as[1].as[1].name, wrap |-> 0]
-  ELSE IF s.k = "assign" /\ Len(s.ls) = 1 /\ Len(s.rs) = 1 /\ s.op = "=" /\ s.ls[1].k = "id" /\ DirectUse(s.rs[1])
-          /\ Len(s.rs[1].as) = 1 /\ s.rs[1].as[1].k = "str"
-    THEN [is |-> TRUE, name |-> s.rs[1].as[1].name, wrap |-> 0]
-  ELSE NoLead
 Use1(st, r) == IF ~r.ok THEN r
                ELSE IF st.v2 /\ r.v.t = "void" THEN E(r.st, "no-value")
                ELSE IF r.v.t = "multi" THEN E(r.st, "multi-value")
@@ -450,7 +440,8 @@ KeyNameOf(e) == CASE e.k = "id" -> [ok |-> TRUE, n |-> e.n]
 
 (* ------------------------------ evaluation ------------------------------ *)
 RECURSIVE Eval(_, _), EvalSeq(_, _, _, _), EvalIdxGet(_, _, _, _), EvalIdxSet(_, _, _, _, _), EvalCall(_, _),
-          EvalAssign(_, _), EvalSlice(_, _), EvalMapLit(_, _, _, _, _)
+          EvalAssign(_, _), EvalSlice(_, _), EvalMapLit(_, _, _, _, _),
+          ExecList(_, _, _, _, _), ExecStmt(_, _, _, _), ForLoop(_, _, _, _), ForInLoop(_, _, _, _, _, _, _), PickBranch(_, _, _, _, _)
 
 \* evaluate es[i..] left to right; acc collects values; stops at the first error
 EvalSeq(es, i, st, acc) ==
@@ -653,7 +644,16 @@ EvalCall(e, st) ==
            (LET r == Use1(st, Eval(e.as[1], st)) IN
             IF ~r.ok THEN r ELSE R(LogProbe(r.st, <<r.v>>), r.v))
       [] e.f = "exit" -> R([st EXCEPT !.xt = TRUE], VVoid)
-      [] e.f = "use" -> R([st EXCEPT !.pend = e.as[1].name], VVoid)
+      [] e.f = "use" ->        \* not a statement of its own (see EvalTop): the callee runs here, to completion
+           (LET name == e.as[1].name IN
+            IF name \notin DOMAIN st.c.prog THEN R(st, VVoid)
+            ELSE LET cc == [st.c EXCEPT !.name = name]
+                     inner == ExecList(st.c.prog[name], 1, [st EXCEPT !.sc = <<EmptyScope>>, !.xt = FALSE, !.wrap = 0, !.pre = <<>>, !.c = cc],
+                                       cc, InlineFuel)
+                 IN IF inner.out = "diverge" THEN E(st, "unspec-diverge")
+                    ELSE IF inner.out = "error"
+                      THEN E([inner.st EXCEPT !.sc = st.sc, !.xt = st.xt, !.c = st.c, !.wrap = st.wrap, !.pre = inner.chain], inner.cls)
+                    ELSE R([inner.st EXCEPT !.sc = st.sc, !.xt = st.xt, !.c = st.c, !.wrap = st.wrap, !.pre = st.pre], VVoid))   \* a callee's exit() ends only the callee
       [] e.f = "len" ->
            (LET r == Eval(e.as[1], st) IN
             IF ~r.ok THEN r
@@ -822,4 +822,117 @@ EvalCall(e, st) ==
                       \* failure: the point keeps its time and key; a failure note appears under pl_msg
                       ELSE R([lg EXCEPT !.pt = PtSetField(@, PLMSG, [t |-> "anystr"])], VVoid))
       [] OTHER -> E(st, "unknown-function")
+
+(* ------------------- statements: the reference semantics (big-step) ------------------- *)
+(* Named and documented in PlRef; defined here because a use() call inside an expression   *)
+(* runs a whole script (one recursive group with Eval).                                  *)
+\* a statement of its own that is a use() call leaves the callee to the statement level (st.pend)
+EvalTop(s, st) == IF DirectUse(s) THEN R([st EXCEPT !.pend = s.as[1].name], VVoid) ELSE Eval(s, st)
+
+BRes(st, out, cls, chain, fuel) == [st |-> st, out |-> out, cls |-> cls, chain |-> chain, fuel |-> fuel]
+Norm(st, fuel) == BRes(st, "normal", "", <<>>, fuel)
+RECURSIVE RepeatP(_, _)
+RepeatP(x, n) == IF n = 0 THEN <<>> ELSE <<x>> \o RepeatP(x, n - 1)
+\* an expression-level failure inside statement sid of script `name`
+Failed(st, cls, name, sid, fuel) == BRes([st EXCEPT !.wrap = 0, !.pre = <<>>], "error", cls, st.pre \o RepeatP(<<name, sid>>, 1 + st.wrap), fuel)
+
+PushS(st) == [st EXCEPT !.sc = Append(@, EmptyScope)]
+PopS(st, n) == [st EXCEPT !.sc = SubSeq(@, 1, Len(@) - n)]
+ClearTop(st) == [st EXCEPT !.sc[Len(st.sc)] = EmptyScope]
+
+SortAscR(ks) ==
+  LET Less(a, b) == \E i \in 1..(IF Len(a) < Len(b) THEN Len(a) ELSE Len(b)) + 1 :
+                      /\ \A j \in 1..(i - 1) : j <= Len(a) /\ j <= Len(b) /\ a[j] = b[j]
+                      /\ \/ (i > Len(a) /\ i <= Len(b))
+                         \/ (i <= Len(a) /\ i <= Len(b) /\ a[i] < b[i])
+      RECURSIVE Srt(_)
+      Srt(S) == IF S = {} THEN <<>>
+                ELSE LET mn == CHOOSE a \in S : \A b \in S \ {a} : Less(a, b) IN <<mn>> \o Srt(S \ {mn})
+  IN Srt({ks[i] : i \in 1..Len(ks)})
+RevR(s) == [i \in 1..Len(s) |-> s[Len(s) + 1 - i]]
+
+\* c: context [prog, name, mo, v2]
+
+ExecList(ss, i, st, c, fuel) ==
+  IF i > Len(ss) THEN Norm(st, fuel)
+  ELSE IF fuel = 0 THEN BRes(st, "diverge", "", <<>>, 0)
+  ELSE LET r == ExecStmt(ss[i], st, c, fuel - 1)
+       IN IF r.out = "normal" THEN ExecList(ss, i + 1, r.st, c, r.fuel) ELSE r
+
+\* first truthy condition: [st, out(normal/error), j]
+PickBranch(s, j, st, c, fuel) ==
+  IF j > Len(s.cs) THEN [st |-> st, ok |-> TRUE, j |-> 0, cls |-> ""]
+  ELSE LET r == Use1(st, Eval(s.cs[j], st)) IN
+       IF ~r.ok THEN [st |-> r.st, ok |-> FALSE, j |-> 0, cls |-> r.cls]
+       ELSE IF Truthy(r.st.heap, r.v) THEN [st |-> r.st, ok |-> TRUE, j |-> j, cls |-> ""]
+       ELSE PickBranch(s, j + 1, r.st, c, fuel)
+
+ExecStmt(s, st, c, fuel) ==
+  CASE s.k = "break" -> BRes(st, "break", "", <<>>, fuel)
+    [] s.k = "continue" -> BRes(st, "continue", "", <<>>, fuel)
+    [] s.k = "if" ->
+         LET p == PickBranch(s, 1, PushS(st), c, fuel) IN
+         IF ~p.ok THEN Failed(p.st, p.cls, c.name, s.sid, fuel)
+         ELSE IF p.j = 0 /\ ~s.he THEN Norm(PopS(p.st, 1), fuel)
+         ELSE LET r == ExecList(IF p.j # 0 THEN s.bs[p.j] ELSE s.eb, 1, PushS(p.st), c, fuel)
+              IN IF r.out \in {"error", "diverge"} THEN r ELSE [r EXCEPT !.st = PopS(r.st, 2)]
+    [] s.k = "for" ->
+         LET st1 == PushS(st)
+             i == IF NoneNode(s.i) THEN R(st1, VVoid) ELSE Eval(s.i, st1)
+         IN IF ~i.ok THEN Failed(i.st, i.cls, c.name, s.sid, fuel)
+            ELSE LET r == ForLoop(s, i.st, c, fuel)
+                 IN IF r.out \in {"error", "diverge"} THEN r ELSE [r EXCEPT !.st = PopS(r.st, 1)]
+    [] s.k = "forin" ->
+         LET st1 == PushS(st)
+             it == Use1(st1, Eval(s.it, st1))
+         IN IF ~it.ok THEN Failed(it.st, it.cls, c.name, s.sid, fuel)
+            ELSE LET kd == KindOf(it.st.heap, it.v) IN
+                 IF ~(kd \in {"str", "list", "map"}) THEN Failed(it.st, "not-iterable", c.name, s.sid, fuel)
+                 ELSE LET items == CASE kd = "str" -> [k \in 1..Len(Runes(it.v.s)) |-> VStr(Runes(it.v.s)[k])]
+                                     [] kd = "list" -> it.st.heap[it.v.l].e
+                                     [] kd = "map" -> LET ks == SortAscR(it.st.heap[it.v.l].ks)
+                                                          o == IF c.mo = "desc" THEN RevR(ks) ELSE ks
+                                                      IN [k \in 1..Len(o) |-> VStr(o[k])]
+                          r == ForInLoop(s, items, 1, PushS(it.st), c, fuel, kd = "str")
+                      IN IF r.out \in {"error", "diverge"} THEN r ELSE [r EXCEPT !.st = PopS(r.st, 2)]
+    [] OTHER ->
+         LET r == EvalTop(s, st) IN
+         IF ~r.ok THEN Failed(r.st, r.cls, c.name, s.sid, fuel)
+         ELSE IF r.st.pend # "" /\ r.st.pend \in DOMAIN c.prog
+           THEN \* use(name): the callee runs on the same point and heap with fresh variables
+                LET callee == r.st.pend
+                    inner == ExecList(c.prog[callee], 1, [r.st EXCEPT !.sc = <<EmptyScope>>, !.pend = "", !.xt = FALSE, !.c = [c EXCEPT !.name = callee]],
+                                      [c EXCEPT !.name = callee], fuel)
+                IN IF inner.out = "diverge" THEN inner
+                   ELSE IF inner.out = "error" THEN [inner EXCEPT !.chain = Append(@, <<c.name, s.sid>>)]
+                   ELSE Norm([inner.st EXCEPT !.sc = r.st.sc, !.xt = r.st.xt, !.pend = "", !.c = c], inner.fuel)     \* a callee's exit() ends only the callee
+         ELSE IF r.st.xt THEN BRes([r.st EXCEPT !.pend = ""], "exit", "", <<>>, fuel)
+         ELSE Norm([r.st EXCEPT !.pend = ""], fuel)
+
+\* state st has the loop's scope on top
+ForLoop(s, st, c, fuel) ==
+  IF fuel = 0 THEN BRes(st, "diverge", "", <<>>, 0)
+  ELSE LET cond == IF NoneNode(s.c) THEN R(st, VBool(TRUE)) ELSE Use1(st, Eval(s.c, st)) IN
+  IF ~cond.ok THEN Failed(cond.st, cond.cls, c.name, s.sid, fuel)
+  ELSE IF ~Truthy(cond.st.heap, cond.v) THEN Norm(cond.st, fuel)
+  ELSE LET b == ExecList(s.b, 1, PushS(cond.st), c, fuel - 1) IN
+       IF b.out \in {"error", "diverge"} THEN b
+       ELSE LET st2 == PopS(b.st, 1) IN
+            IF b.out = "break" THEN Norm(st2, b.fuel)
+            ELSE IF b.out = "exit" THEN BRes(st2, "exit", "", <<>>, b.fuel)
+            ELSE LET p == IF NoneNode(s.p) THEN R(st2, VVoid) ELSE Eval(s.p, st2) IN
+                 IF ~p.ok THEN Failed(p.st, p.cls, c.name, s.sid, b.fuel)
+                 ELSE ForLoop(s, p.st, c, b.fuel)
+
+\* state st has the iteration scope on top
+ForInLoop(s, items, i, st, c, fuel, strmode) ==
+  IF i > Len(items) THEN Norm(st, fuel)
+  ELSE IF fuel = 0 THEN BRes(st, "diverge", "", <<>>, 0)
+  ELSE LET st1 == [ClearTop(st) EXCEPT !.sc = SetVar(ClearTop(st).sc, IF c.v2 THEN s.v ELSE Alias(s.v), items[i])]
+           b == ExecList(s.b, 1, st1, c, fuel - 1)
+       IN IF b.out \in {"error", "diverge"} THEN b
+          ELSE IF b.out = "break" THEN Norm(b.st, b.fuel)
+          ELSE IF b.out = "exit" THEN BRes(b.st, "exit", "", <<>>, b.fuel)
+          ELSE ForInLoop(s, items, i + 1, b.st, c, b.fuel, strmode)
+
 =============================================================================
